@@ -23,7 +23,7 @@ ASSUMPTIONS = [
 ]
 SIGNATURES = ()
 
-METRICS = ['a', 'b', 'c', 'd']
+METRICS = ['a', 'b', '', 'c', 'd']      # '' is a legal (and falsy) metric name
 
 
 @st.composite
